@@ -160,13 +160,11 @@ theorem convert_some {lib : Lib} {f : Frame α γ} {c : Converted α γ} (h : co
   simp only at h
   split at h
   · simp at h
-  · split at h
-    · simp at h
-    · rename_i hne
-      simp only [Option.some.injEq] at h
-      subst h
-      refine ⟨?_, rfl, rfl, rfl, rfl⟩
-      intro he; simp [he] at hne
+  · rename_i hne
+    simp only [Option.some.injEq] at h
+    subst h
+    refine ⟨?_, rfl, rfl, rfl, rfl⟩
+    intro he; simp [he] at hne
 
 theorem blocks_eq_nil (lib : Lib) (f : Frame α γ) :
     blocks lib f = [] ↔ f.cat = none ∧ f.num = none ∧ f.emb = none := by
